@@ -219,9 +219,16 @@ def drive_plan(level, mode, quick_args, thorough_args, quick_shards=16, thorough
 
 _HIST_ASSUME = ["crash-free executions only (crashes are C02-C04)", "features: default + encryption; PDF/XLSX/CLIP/Whisper/replay paths are not driven",
                 "a history stops at its first violation, so later operations of that history are not judged"]
-PROPS["C01"] = drive_plan("exploration", "hist", ["--histories", 3, "--ops", 45], ["--histories", 60, "--ops", 70], assumptions=_HIST_ASSUME)
+def _big_histories(pid, tier, seed, scratch, bindir):
+    """Multi-megabyte payloads: block-wise code (8 MiB shift buffer of log growth, staging copy) sees more than one block."""
+    n = 2 if tier == "quick" else 8
+    args = ["--property", pid, "--big", "1", "--histories", 1]
+    return C.run_sharded(os.path.join(bindir, "mvdrive"), "hist", args, n, seed + 7, os.path.join(scratch, "big"), timeout=3400)
+
+
+PROPS["C01"] = drive_plan("exploration", "hist", ["--histories", 3, "--ops", 45], ["--histories", 60, "--ops", 70], assumptions=_HIST_ASSUME, custom=_big_histories)
 PROPS["C06"] = drive_plan("exploration", "hist", ["--histories", 3, "--ops", 45], ["--histories", 60, "--ops", 70], assumptions=_HIST_ASSUME)
-PROPS["C07"] = drive_plan("exploration", "hist", ["--histories", 3, "--ops", 35], ["--histories", 50, "--ops", 60], assumptions=_HIST_ASSUME)
+PROPS["C07"] = drive_plan("exploration", "hist", ["--histories", 3, "--ops", 35], ["--histories", 50, "--ops", 60], assumptions=_HIST_ASSUME, custom=_big_histories)
 PROPS["C15"] = drive_plan("exploration", "c15", ["--histories", 4, "--ops", 30], ["--histories", 80, "--ops", 50], assumptions=_HIST_ASSUME + [
     "membership is required of Document-role frames only; other roles may appear but must respect the (timestamp, id) order"])
 
